@@ -370,7 +370,11 @@ func c18(args []string) int {
 			if err := json.Unmarshal(raw, &j); err != nil {
 				return c18Res{Err: err.Error()}
 			}
-			return c18Exec(j)
+			r, ok := confirm(func() c18Res { return c18Exec(j) }, func(r c18Res) bool { return r.Dead || r.Halt != "" || r.Probe != "" })
+			if !ok {
+				return c18Res{Err: unstableMsg}
+			}
+			return r
 		})
 	}
 	f := explore.ParseFlags("C18", args, nil)
